@@ -70,6 +70,12 @@ def make(ctx, rng, point_symmetric=False, many=False):
     if (~m).sum() < 2 and rng.random() < 0.9:
         m.ravel()[rng.choice(H * W, size=2, replace=False)] = False
     ps = (float(rng.uniform(0.05, 0.5)), float(rng.uniform(0.05, 0.5)))
+    wide = rng.random() < 0.12
+    if wide:
+        # wide fields (arc-minute to half-degree pixels): the coordinates in radians are no longer tiny, the operator is still the
+        # stated exponential of the pixel centres in radians
+        f_ = float(10.0 ** rng.uniform(2.0, 3.6))
+        ps = (ps[0] * f_, ps[1] * f_)
     origin = (0.0, 0.0) if rng.random() < 0.3 else (float(rng.normal() * 0.3), float(rng.normal() * 0.3))
     if point_symmetric:
         # mask invariant under the point reflection through the frame centre, origin (0, 0): the centres of a pixel and of its
@@ -88,6 +94,8 @@ def make(ctx, rng, point_symmetric=False, many=False):
         if many == "hundreds":          # the un-jitted direct sums loop over baselines in Python
             K = int(rng.integers(200, 900))
     mag = np.exp(rng.uniform(np.log(1e2), np.log(1e6), size=K))
+    if wide:
+        mag = mag / f_                     # baselines that resolve the (large) pixels: phases of the same size as for small fields
     ang = rng.uniform(0, 2 * np.pi, size=K)
     uv = np.stack([mag * np.cos(ang), mag * np.sin(ang)], axis=1)
     if K >= 2 and rng.random() < 0.6:
@@ -96,7 +104,7 @@ def make(ctx, rng, point_symmetric=False, many=False):
         uv[2] = uv[1]
     centres = ref.slim_centres(m, ps, origin) * np.pi / 648000.0          # (y, x) radians
     A = np.exp(-2j * np.pi * (np.outer(uv[:, 0], centres[:, 1]) + np.outer(uv[:, 1], centres[:, 0])))   # (K, n)
-    return dict(m=m, fam=fam, ps=ps, origin=origin, mask=mask, uv=uv, A=A, K=K, n=int((~m).sum()))
+    return dict(m=m, fam=fam + ("+wide_field" if wide else ""), ps=ps, origin=origin, mask=mask, uv=uv, A=A, K=K, n=int((~m).sum()))
 
 
 def run_op(ctx, i):
@@ -246,8 +254,11 @@ def run_inv(ctx, i):
         else:
             M, mk = gen.mapping_matrix(rng, n, int(rng.integers(1, 3)), kind=str(rng.choice(["fractional", "signed", "tiny"])))
             M[0, :] += 0.5
-            objs.append(Func(grid=g, M=M, regularization=None if unreg else aa.reg.Zeroth(coefficient=float(rng.uniform(0.3, 2)))))
-            desc.append({"kind": "func", "matrix": mk, "regularized": not unreg})
+            # every other function list also carries the operated matrix an IMAGING inversion would use for it (a convolved copy): the
+            # interferometer inversion transforms the mapping matrix itself
+            ov = (0.6 * M + 0.3 * rng.normal(size=M.shape)) if rng.random() < 0.5 else None
+            objs.append(Func(grid=g, M=M, regularization=None if unreg else aa.reg.Zeroth(coefficient=float(rng.uniform(0.3, 2))), override=ov))
+            desc.append({"kind": "func", "matrix": mk, "regularized": not unreg, "carries_imaging_operated_override": ov is not None})
     if sym:
         # dipole columns (+v at a pixel, -v at its mirror pixel): their transform is exactly imaginary (real part 0.0)
         idx = {tuple(p): k for k, p in enumerate(np.argwhere(~m))}
